@@ -71,7 +71,7 @@ def anaMultilinearFixed (c s e : List α) : α :=
     * mulLoop ((1 : Nat) : α) (List.zipWith (fun s e => e - s) s e)
 
 /-- is handoff/C12-fix-2.diff present in the modelled code?  `false`: the code AS IT IS today -/
-def multilinearRepaired : Bool := false
+def multilinearRepaired : Bool := true
 
 /-- `FunctionMultilinear.getAnalyticSolutionIntegral` of the code under test (what the driver executes) -/
 def anaMultilinearCurrent (c s e : List α) : α :=
